@@ -96,3 +96,45 @@ S("C06", "trim to flag keeps the tail when no flag", "N5", (H, "            # fl
 S("C06", "class-level pending flag", "N2", (H, "                    self._unescape_next = True\n", "                    self._unescape_next = True\n                    HdlcFrameReader.last_escape = True\n"))
 N("C06", "epilogue trim through a local alias", (H, "        # release consumed bytes\n        self._buffer.trim_buffer_to_current_position()\n", "        buf = self._buffer\n        buf.trim_buffer_to_current_position()\n"))
 N("C06", "loop test via method result variable", (H, "            frame_complete = self._read_next()\n            if frame_complete:", "            done = self._read_next()\n            if done:"))
+
+# ------------------------------------------------------------------------------------------------ C05 / C16 / C19 (the repaired defects re-seeded, plus others)
+D = "dlde"
+OLD_GUARD = ("        readouts_received: list[DataReadout] = []\n\n        self._buffer.extend(data_chunk)\n",
+             "        readouts_received: list[DataReadout] = []\n\n        if len(self._buffer) > 8191:\n            self._is_int_hunt_mode = True\n            self._buffer.trim_buffer_to_flag_or_end()\n\n        self._buffer.extend(data_chunk)\n")
+NO_EXIT_TRIM = ("                # Release consumed bytes. Only an incomplete line is left in the buffer.\n                self._buffer.trim_buffer_to_current_position()\n", "")
+S("C05", "pinned defect: guard at call entry counts consumed bytes", "R1", (D, *OLD_GUARD), (D, *NO_EXIT_TRIM),
+  (D, "                if len(self._buffer) + len(self._raw_data) > 8191:\n", "                if len(self._raw_data) > 65536:\n"))
+S("C05", "guard evaluated before the exit trim", "R1", (D, "                self._buffer.trim_buffer_to_current_position()\n                if len(self._buffer) + len(self._raw_data) > 8191:\n",
+                                                       "                if len(self._buffer) + len(self._raw_data) > 8191:\n"), )
+S("C05", "guard limit 8191 -> 1024", "R4", (D, "if len(self._buffer) + len(self._raw_data) > 8191:", "if len(self._buffer) + len(self._raw_data) > 1024:"))
+S("C05", "end-line row forgets clear()", "R2", (D, "                    self._raw_data.clear()\n                    self._is_int_hunt_mode = True\n\n", "                    self._is_int_hunt_mode = True\n\n"))
+S("C05", "hunt row keeps non-ident lines", "R2", (D, "                        self._is_int_hunt_mode = False\n                        self._raw_data.extend(line)\n", "                        self._is_int_hunt_mode = False\n                    self._raw_data.extend(line)\n"))
+S("C05", "end line not kept in the readout", "R2", (D, "            else:\n                self._raw_data.extend(line)\n                if line[0] == END_CHARACTER_HEX:\n", "            else:\n                if line[0] != END_CHARACTER_HEX:\n                    self._raw_data.extend(line)\n                if line[0] == END_CHARACTER_HEX:\n"))
+S("C05", "pop advances one byte short", "R3", (D, "                self._buffer_pos += len(line)\n", "                self._buffer_pos += len(line) - 1\n"))
+S("C05", "early return when the chunk has no start character", "R3", (D, "        self._buffer.extend(data_chunk)\n\n        if self._is_int_hunt_mode:", "        if self._is_int_hunt_mode and START_CHARACTER_HEX not in data_chunk:\n            return readouts_received\n        self._buffer.extend(data_chunk)\n\n        if self._is_int_hunt_mode:"))
+S("C05", "end row also clears the buffer", "R2", (D, "                    self._raw_data.clear()\n                    self._is_int_hunt_mode = True\n\n", "                    self._raw_data.clear()\n                    self._buffer.clear()\n                    self._is_int_hunt_mode = True\n\n"))
+N("C05", "hunt test through the field", (D, "            if self.is_in_hunt_mode:\n                if line[0] == START_CHARACTER_HEX and line.isascii():", "            if self._is_int_hunt_mode:\n                if line[0] == START_CHARACTER_HEX and line.isascii():"))
+N("C05", "guard written with >=", (D, "if len(self._buffer) + len(self._raw_data) > 8191:", "if len(self._raw_data) + len(self._buffer) >= 8192:"))
+N("C05", "end test inverted branches", (D, "                if line[0] == END_CHARACTER_HEX:\n                    readout = DataReadout(bytes(self._raw_data))\n                    readouts_received.append(readout)\n                    _LOGGER.debug(\"Readout received:\\n%s\", readout)\n                    self._raw_data.clear()\n                    self._is_int_hunt_mode = True\n",
+                                          "                if line[0] != END_CHARACTER_HEX:\n                    continue\n                readout = DataReadout(bytes(self._raw_data))\n                readouts_received.append(readout)\n                self._raw_data.clear()\n                self._is_int_hunt_mode = True\n"))
+
+S("C16", "pinned defect: pending escape not reset at frame start", "R1", (H, "        self._raw_frame_data.clear()\n        self._unescape_next = False\n", "        self._raw_frame_data.clear()\n"))
+S("C19", "raw history not cleared at frame start", "R2", (H, "        self._frame = HdlcFrame()\n        self._raw_frame_data.clear()\n", "        self._frame = HdlcFrame()\n"))
+S("C16", "too-short discard keeps the partial frame", "R2", (H, "                self._raw_frame_data.hex(),\n            )\n            self._goto_hunt_mode()\n\n        # check if previous", "                self._raw_frame_data.hex(),\n            )\n\n        # check if previous"))
+S("C16", "over-long discard restarts a frame mid-stream", "R2", (H, "                self._raw_frame_data.hex(),\n            )\n            self._goto_hunt_mode()\n            frame_complete = False", "                self._raw_frame_data.hex(),\n            )\n            self._start_frame()\n            frame_complete = False"))
+S("C16", "abort discard delivers the frame", "R2", (H, '                "Abort sequence. Discard frame: %s", self._raw_frame_data.hex()\n            )\n            self._goto_hunt_mode()', '                "Abort sequence. Discard frame: %s", self._raw_frame_data.hex()\n            )\n            frame_complete = True'))
+S("C16", "P1 guard trip keeps the collected lines", "R3", (D, "                    self._raw_data.clear()\n                    self._is_int_hunt_mode = True\n                    self._buffer.clear()", "                    self._is_int_hunt_mode = True\n                    self._buffer.clear()"))
+S("C16", "P1 guard trip stays in collect mode", "R3", (D, "                    self._raw_data.clear()\n                    self._is_int_hunt_mode = True\n                    self._buffer.clear()", "                    self._raw_data.clear()\n                    self._buffer.clear()"))
+S("C16", "P1 end line does not return to hunt mode", "R3", (D, "                    self._raw_data.clear()\n                    self._is_int_hunt_mode = True\n\n", "                    self._raw_data.clear()\n\n"))
+N("C16", "reset of the pending flag moved to hunt-mode entry and frame start", (H, "    def _goto_hunt_mode(self) -> None:\n        self._frame = None\n", "    def _goto_hunt_mode(self) -> None:\n        self._frame = None\n        self._unescape_next = False\n"))
+
+S("C19", "pinned defect: no trim on exit of HdlcFrameReader.read", "R1", (H, "        # release consumed bytes\n        self._buffer.trim_buffer_to_current_position()\n", ""))
+S("C19", "pinned defect: flag appended without the length guard", "R2", (H, "        if self._frame is not None and len(self._frame) > HdlcFrame.MAX_FRAME_LENGTH:\n", "        if not is_flag and self._frame is not None and len(self._frame) > HdlcFrame.MAX_FRAME_LENGTH:\n"))
+S("C19", "length guard removed", "R2", (H, "            self._goto_hunt_mode()\n            frame_complete = False\n\n        return frame_complete", "            frame_complete = False\n\n        return frame_complete"))
+S("C19", "pinned defect: P1 trip path trims to start character only", "R3", (D, "                    self._is_int_hunt_mode = True\n                    self._buffer.clear()", "                    self._is_int_hunt_mode = True\n                    self._buffer.trim_buffer_to_flag_or_end()"))
+S("C19", "P1 guard no longer covers the collected lines", "R2", (D, "if len(self._buffer) + len(self._raw_data) > 8191:", "if len(self._buffer) > 8191:"))
+S("C19", "P1 consumed lines not released on exit", "R1", (D, *NO_EXIT_TRIM))
+S("C19", "P1 guard removed", "R2", (D, "                if len(self._buffer) + len(self._raw_data) > 8191:\n", "                if False:\n"))
+S("C19", "escape after escape re-arms without growing the frame", "R2", (H, "            if self._unescape_next:\n                self._unescape_next = False\n                unescaped = current ^ 0x20\n                self._frame.append(unescaped)\n            else:\n                if current == HdlcFrameReader.CONTROL_ESCAPE:\n                    self._unescape_next = True\n                else:\n                    self._frame.append(current)",
+    "            if current == HdlcFrameReader.CONTROL_ESCAPE:\n                self._unescape_next = True\n            elif self._unescape_next:\n                self._unescape_next = False\n                self._frame.append(current ^ 0x20)\n            else:\n                self._frame.append(current)"))
+N("C19", "exit trim via trim-to-flag when hunting", (H, "        # release consumed bytes\n        self._buffer.trim_buffer_to_current_position()\n", "        if self._frame is None:\n            self._buffer.trim_buffer_to_flag_or_end()\n        else:\n            self._buffer.trim_buffer_to_current_position()\n"))
